@@ -30,6 +30,13 @@ DIRECTIVES = [
     (["#elif(BAR)"], "#elif (BAR)"),
     (["#include\"a.h\""], "#include \"a.h\""),
     (["#endif//x"], None),
+    # shortest operands
+    (["#include \"a\""], None),
+    (["#define A"], None),
+    (["#undef B"], None),
+    (["#ifdef C"], None),
+    (["#if 1"], None),
+    (["#line 1"], None),
     (["# 1 \"main.F90\" 2"], None),
     (["#define LONG(a) \\", "    a + 1"], "#define LONG(a)     a + 1"),
     (["  #  define SPACED 3"], "#define SPACED 3"),
